@@ -763,7 +763,28 @@ $S.call = function (f, args) {
   if (!args.some(needsValueHook)) return base.call(f, args);
   if (!isNative(f)) return f(...args);
   args.forEach((a) => touched(a));
-  if (f === String) return placeholder(args[0]);
+  if (f === String) {
+    // String(x): for a symbolic string the string itself; for a symbolic number a derived symbolic string (decimal rendering of integers;
+    // anything else is some string that is not a decimal integer) - so that tables keyed by String(value) are followed, not skipped
+    const x = args[0];
+    if (x instanceof SymStrV) return x;
+    if (x instanceof SymNumV) {
+      declNum(x);
+      const d = new SymStrV('derived:String(' + x.id + ')');
+      declStr(d);
+      const alts = [
+        `(and (= c${x.id} 0) (is_int n${x.id}) (>= n${x.id} 0.0) (= s${d.id} (int.to.str (to_int n${x.id}))))`,
+        `(and (= c${x.id} 0) (is_int n${x.id}) (< n${x.id} 0.0) (= s${d.id} (str.++ "-" (int.to.str (to_int (- n${x.id}))))))`,
+        `(and (= c${x.id} 0) (not (is_int n${x.id})) (= (str.to.int s${d.id}) (- 1)) (str.contains s${d.id} "."))`,
+        `(and (= c${x.id} 1) (= s${d.id} "NaN"))`,
+        `(and (= c${x.id} 2) (= s${d.id} "Infinity"))`,
+        `(and (= c${x.id} 3) (= s${d.id} "-Infinity"))`,
+      ];
+      decide(alts);
+      return d;
+    }
+    return placeholder(x);
+  }
   if (f === Boolean) return $S.truthy(args[0]);
   if (f === isNaN || f === Number.isNaN) { if (args[0] instanceof SymNumV) { declNum(args[0]); return forkBool(`(= c${args[0].id} 1)`); } if (f === Number.isNaN) return false; }
   throw new Unmodelled('native function ' + (f.name || '?') + ' on a symbolic value');
